@@ -80,6 +80,9 @@ fn intervals_from_bounds(
     let mut bounds_end = ensure_increasing_iter(bounds_end.into_iter()).peekable();
 
     std::iter::from_fn(move || {
+        #[cfg(oh_verif)]
+        crate::verif_hooks::tick(crate::verif_hooks::Site::DateBounds);
+
         if let Some(start) = bounds_start.peek() {
             while bounds_end.next_if(|end| end < start).is_some() {}
         }
@@ -545,6 +548,9 @@ impl DateFilter for ds::WeekRange {
             NaiveDate::from_isoywd_opt(date.iso_week().year(), weeknum, ds::Weekday::Mon)?;
 
         while res <= date {
+            #[cfg(oh_verif)]
+            crate::verif_hooks::tick(crate::verif_hooks::Site::WeekHint);
+
             res = NaiveDate::from_isoywd_opt(res.iso_week().year() + 1, weeknum, ds::Weekday::Mon)?;
         }
 
